@@ -815,15 +815,18 @@ Section FlexOps.
   Qed.
 
   Section Push.
-    (* the emplacement theorems for the item type (C03 / C15), proved elsewhere *)
-    Hypothesis Hitem : forall i pa payload payload', init_ok et i = true ->
+    (* the emplacement theorems for the item type (C03 / C15), proved elsewhere; [okinit] is the
+       class of emplacer expressions they are available for (everything: fun _ => True; every
+       expression whose string literals are UTF-8: Proofs/FlexAllFacts.v) *)
+    Variable okinit : init -> Prop.
+    Hypothesis Hitem : forall i pa payload payload', okinit i -> init_ok et i = true ->
       emplace pv et i pa payload = (payload', Ok tt) ->
       blen payload' = blen payload /\ validate et pa payload' = Ok tt /\
       (exists v, view et payload' = Ok v /\ spec_value et i = Some (strip v)).
-    Hypothesis Hitem_len : forall i pa payload, init_ok et i = true ->
+    Hypothesis Hitem_len : forall i pa payload, okinit i -> init_ok et i = true ->
       is_crash (snd (emplace pv et i pa payload)) = false ->
       blen (fst (emplace pv et i pa payload)) = blen payload.
-    Hypothesis Hitem_nocrash : forall i pa payload, init_ok et i = true ->
+    Hypothesis Hitem_nocrash : forall i pa payload, okinit i -> init_ok et i = true ->
       is_crash (snd (emplace pv et i pa payload)) = false.
 
     (* what the result of a push looks like, relative to the old state *)
@@ -847,13 +850,13 @@ Section FlexOps.
 
     (* the item emplacer ran on the payload behind the new slot at tp and failed or crashed *)
     Lemma push_emplace_err i bs vs k tp payload' kd p :
-      init_ok et i = true -> k <= tp + os -> tp + os <= blen (flex_data et l bs) ->
+      okinit i -> init_ok et i = true -> k <= tp + os -> tp + os <= blen (flex_data et l bs) ->
       emplace pv et i (a + tp + os) (drop (tp + os) (flex_data et l bs)) = (payload', Err kd p) ->
       push_post i bs vs k
         ((take (tp + os) (flex_data et l bs) ++ payload') ++ drop (floor_mul (blen bs) al) bs, OErr kd).
     Proof.
-      intros Hi Hk Hroom Hem. unfold push_post. cbn [fst snd].
-      pose proof (Hitem_len i (a + tp + os) (drop (tp + os) (flex_data et l bs)) Hi (Hitem_nocrash _ _ _ Hi)) as Hlen.
+      intros Hoki Hi Hk Hroom Hem. unfold push_post. cbn [fst snd].
+      pose proof (Hitem_len i (a + tp + os) (drop (tp + os) (flex_data et l bs)) Hoki Hi (Hitem_nocrash _ _ _ Hoki Hi)) as Hlen.
       rewrite Hem in Hlen. cbn [fst] in Hlen. rewrite blen_drop in Hlen.
       destruct (flex_data_blen et l bs Hw) as (HF & HFle & _).
       assert (Htk : blen (take (tp + os) (flex_data et l bs)) = tp + os) by (apply blen_take_le; exact Hroom).
@@ -865,10 +868,10 @@ Section FlexOps.
       - right. exists (a + tp + os), (drop (tp + os) (flex_data et l bs)), p. rewrite Hem. reflexivity.
     Qed.
 
-    Lemma push_state i bs items e vs k : init_ok et i = true -> fstate bs items e vs -> size_m t bs = Ok k ->
+    Lemma push_state i bs items e vs k : okinit i -> init_ok et i = true -> fstate bs items e vs -> size_m t bs = Ok k ->
       push_post i bs vs k (flex_op pv t a (FPush i) bs).
     Proof.
-      intros Hi Hst Hk. pose proof Hst as (Hch & Hok & Hvs & Hc).
+      intros Hoki Hi Hst Hk. pose proof Hst as (Hch & Hok & Hvs & Hc).
       destruct (fstate_facts _ _ _ _ Hst) as (Hv & Hview & Hsz & Hfc).
       pose proof (flex_consts et l Hw) as (Hal & Hlos & Hosm & Hdiv & Hos & Hil & Halt).
       destruct (flex_data_blen et l bs Hw) as (HF & HFle & HFmod).
@@ -890,7 +893,7 @@ Section FlexOps.
         destruct (emplace pv et i (a + tp + os) (drop (tp + os) (flex_data et l bs))) as [payload' [[]|kd p|c]] eqn:Hem.
         + (* emplaced *)
           cbn [fst snd].
-          destruct (Hitem i _ _ _ Hi Hem) as (Hplen & Hpv & v & Hpview & Hspec).
+          destruct (Hitem i _ _ _ Hoki Hi Hem) as (Hplen & Hpv & v & Hpview & Hspec).
           rewrite blen_drop in Hplen.
           destruct (chain_push_zero l os al mx Hlos Hm0 Hosmx (fun rest => Henc mx rest (N.le_refl _))
                       a (flex_data et l bs) 0 items tp payload' Hch) as (Hch' & Hb' & Htq & Hfr).
@@ -913,8 +916,8 @@ Section FlexOps.
           * replace (k - (tp + isize l)) with (os - isize l) by lia.
             apply back_seg; [lia|exact Hd3|exact Hfr].
         + (* the item emplacer failed *)
-          cbn [fst snd]. apply (push_emplace_err i bs vs k tp payload' kd p Hi); auto. lia.
-        + pose proof (Hitem_nocrash i (a + tp + os) (drop (tp + os) (flex_data et l bs)) Hi) as Hnc.
+          cbn [fst snd]. apply (push_emplace_err i bs vs k tp payload' kd p Hoki Hi); auto. lia.
+        + pose proof (Hitem_nocrash i (a + tp + os) (drop (tp + os) (flex_data et l bs)) Hoki Hi) as Hnc.
           rewrite Hem in Hnc. discriminate.
       - (* the chain ends in a marked item at pos: it is sealed, the new slot follows its content *)
         assert (Hrefuse : push_post i bs vs k (bs, OErr InsufficientSize)).
@@ -938,7 +941,7 @@ Section FlexOps.
           as [payload' [[]|kd p|c]] eqn:Hem.
         + (* emplaced *)
           cbn [fst snd].
-          destruct (Hitem i _ _ _ Hi Hem) as (Hplen & Hpv & v & Hpview & Hspec).
+          destruct (Hitem i _ _ _ Hoki Hi Hem) as (Hplen & Hpv & v & Hpview & Hspec).
           rewrite blen_drop in Hplen.
           replace (a + (pos + lo) + os) with (a + pos + lo + os) in Hpv by lia.
           assert (Hlomod : lo mod al = 0) by (apply mod_add_mult; auto; apply ceil_mul_mod; auto).
@@ -989,8 +992,8 @@ Section FlexOps.
                apply back_seg; [lia|exact Hd3|exact Hfr].
         + (* the item emplacer failed *)
           cbn [fst snd]. replace (a + (pos + lo) + os) with (a + (pos + lo) + os) in Hem by lia.
-          apply (push_emplace_err i bs vs k (pos + lo) payload' kd p Hi); auto. lia.
-        + pose proof (Hitem_nocrash i (a + (pos + lo) + os) (drop (pos + lo + os) (flex_data et l bs)) Hi) as Hnc.
+          apply (push_emplace_err i bs vs k (pos + lo) payload' kd p Hoki Hi); auto. lia.
+        + pose proof (Hitem_nocrash i (a + (pos + lo) + os) (drop (pos + lo + os) (flex_data et l bs)) Hoki Hi) as Hnc.
           rewrite Hem in Hnc. discriminate.
     Qed.
 
@@ -1000,7 +1003,7 @@ Section FlexOps.
        bytes only the slot the old chain ended in is rewritten.  Or it reports an error (no room for
        the slot, offset not representable, or the item emplacer's own error): the result is valid
        with the same size(), the same contents and the same first size() bytes. *)
-    Theorem flex_push_ok i bs vs k : init_ok et i = true ->
+    Theorem flex_push_ok_g i bs vs k : okinit i -> init_ok et i = true ->
       validate t a bs = Ok tt -> view t bs = Ok (VNode 0 vs) -> size_m t bs = Ok k ->
       let r := flex_op pv t a (FPush i) bs in
       blen (fst r) = blen bs /\ validate t a (fst r) = Ok tt /\
@@ -1018,9 +1021,9 @@ Section FlexOps.
           take k (fst r) = take k bs /\ size_m t (fst r) = Ok k /\
           exists vs', view t (fst r) = Ok (VNode 0 vs') /\ map strip vs' = map strip vs)).
     Proof.
-      intros Hi Hv Hview Hk r. destruct (valid_unpack bs Hv) as (items & e & vs0 & Hst).
+      intros Hoki Hi Hv Hview Hk r. destruct (valid_unpack bs Hv) as (items & e & vs0 & Hst).
       destruct (fstate_facts _ _ _ _ Hst) as (_ & Hview0 & _). rewrite Hview in Hview0. injection Hview0 as <-.
-      pose proof (push_state i bs items e vs k Hi Hst Hk) as Hpost. fold r in Hpost.
+      pose proof (push_state i bs items e vs k Hoki Hi Hst Hk) as Hpost. fold r in Hpost.
       destruct Hpost as (Hb & Hpost). split; [exact Hb|].
       destruct (snd r) as [| |kd| |] eqn:Ho; try contradiction.
       - destruct Hpost as (items' & e' & vs' & v & Hst' & Hstrip & Hrl & Hspec & Hframe).
@@ -1047,6 +1050,10 @@ Section FlexOps.
       | FPop | FTruncate _ | FClear => True
       | _ => False
       end.
+
+    (* the same, every pushed expression in the class [okinit] *)
+    Definition simple_op_g (op : fop) : Prop :=
+      simple_op op /\ match op with FPush i => okinit i | _ => True end.
 
     (* the list operation on the contents; a push appends the specified content exactly when the
        implementation reports success and leaves the list as it is when it reports an error *)
@@ -1095,7 +1102,7 @@ Section FlexOps.
       cbn [removelast map] in *. rewrite IH. reflexivity.
     Qed.
 
-    Lemma flex_op_step op bs vs : simple_op op ->
+    Lemma flex_op_step_g op bs vs : simple_op_g op ->
       validate t a bs = Ok tt -> view t bs = Ok (VNode 0 vs) ->
       let r := flex_op pv t a op bs in
       blen (fst r) = blen bs /\ validate t a (fst r) = Ok tt /\
@@ -1103,9 +1110,9 @@ Section FlexOps.
         map strip vs' = flex_spec_step (map strip vs) op (snd r) /\
         flex_spec_out (map strip vs) op (snd r).
     Proof.
-      intros Hop Hv Hview r. destruct op as [i| |n| |j vo|j x]; cbn [simple_op] in Hop; try contradiction.
+      intros [Hop Hoki] Hv Hview r. destruct op as [i| |n| |j vo|j x]; cbn [simple_op] in Hop; try contradiction.
       - destruct (valid_size_view t a bs Hw Hv) as (k & v0 & Hk & _).
-        destruct (flex_push_ok i bs vs k Hop Hv Hview Hk) as (Hb & Hv' & Hcases). fold r in Hb, Hv', Hcases.
+        destruct (flex_push_ok_g i bs vs k Hoki Hop Hv Hview Hk) as (Hb & Hv' & Hcases). fold r in Hb, Hv', Hcases.
         split; [exact Hb|]. split; [exact Hv'|].
         destruct Hcases as [(Ho & vs' & v & Hview' & Hstrip & _ & Hspec & _)|(kd & Ho & _ & _ & _ & vs' & Hview' & Hstrip)].
         + exists (vs' ++ [v]). split; [exact Hview'|]. rewrite Ho. cbn [flex_spec_step flex_spec_out].
@@ -1126,7 +1133,7 @@ Section FlexOps.
     (* every finite history of push / pop / truncate / clear from a valid image: the image stays
        valid and keeps its length, its contents are those of the list model, the reported outcomes
        are those the list model allows *)
-    Theorem flex_op_history ops : forall bs vs, Forall simple_op ops ->
+    Theorem flex_op_history_g ops : forall bs vs, Forall simple_op_g ops ->
       validate t a bs = Ok tt -> view t bs = Ok (VNode 0 vs) ->
       let r := flex_run ops bs in
       blen (fst r) = blen bs /\ validate t a (fst r) = Ok tt /\
@@ -1137,13 +1144,60 @@ Section FlexOps.
       induction ops as [|op ops IH]; intros bs vs Hops Hv Hview.
       - cbn [flex_run flex_spec_run flex_spec_outs fst snd]. repeat split; auto. exists vs. auto.
       - inversion Hops as [|x r' Hop Hops']; subst x r'.
-        destruct (flex_op_step op bs vs Hop Hv Hview) as (Hb & Hv' & vs' & Hview' & Hstrip & Hout).
+        destruct (flex_op_step_g op bs vs Hop Hv Hview) as (Hb & Hv' & vs' & Hview' & Hstrip & Hout).
         destruct (IH _ vs' Hops' Hv' Hview') as (Hb2 & Hv2 & vs2 & Hview2 & Hstrip2 & Houts2).
         cbn [flex_run]. cbv zeta. cbn [fst snd flex_spec_run flex_spec_outs].
         split; [lia|]. split; [exact Hv2|]. exists vs2. split; [exact Hview2|].
         rewrite <- Hstrip. split; [exact Hstrip2|]. split; [exact Hout|exact Houts2].
     Qed.
   End Push.
+
+  (* the same with the premises available for every well-typed expression *)
+  Section PushPlain.
+    Hypothesis Hitem : forall i pa payload payload', init_ok et i = true ->
+      emplace pv et i pa payload = (payload', Ok tt) ->
+      blen payload' = blen payload /\ validate et pa payload' = Ok tt /\
+      (exists v, view et payload' = Ok v /\ spec_value et i = Some (strip v)).
+    Hypothesis Hitem_len : forall i pa payload, init_ok et i = true ->
+      is_crash (snd (emplace pv et i pa payload)) = false ->
+      blen (fst (emplace pv et i pa payload)) = blen payload.
+    Hypothesis Hitem_nocrash : forall i pa payload, init_ok et i = true ->
+      is_crash (snd (emplace pv et i pa payload)) = false.
+
+    Theorem flex_push_ok i bs vs k : init_ok et i = true ->
+      validate t a bs = Ok tt -> view t bs = Ok (VNode 0 vs) -> size_m t bs = Ok k ->
+      let r := flex_op pv t a (FPush i) bs in
+      blen (fst r) = blen bs /\ validate t a (fst r) = Ok tt /\
+      ((snd r = ODone /\
+        exists vs' v, view t (fst r) = Ok (VNode 0 (vs' ++ [v])) /\
+          map strip vs' = map strip vs /\ removelast vs' = removelast vs /\
+          spec_value et i = Some (strip v) /\
+          exists p, p + isize l <= k /\ take p (fst r) = take p bs /\
+            take (k - (p + isize l)) (drop (p + isize l) (fst r)) =
+            take (k - (p + isize l)) (drop (p + isize l) bs))
+       \/
+       (exists kd, snd r = OErr kd /\
+          ((kd = InsufficientSize /\ fst r = bs) \/
+           exists pa payload p, snd (emplace pv et i pa payload) = Err kd p) /\
+          take k (fst r) = take k bs /\ size_m t (fst r) = Ok k /\
+          exists vs', view t (fst r) = Ok (VNode 0 vs') /\ map strip vs' = map strip vs)).
+    Proof.
+      intros Hi. apply (flex_push_ok_g (fun _ => True)); auto.
+    Qed.
+
+    Theorem flex_op_history ops : forall bs vs, Forall simple_op ops ->
+      validate t a bs = Ok tt -> view t bs = Ok (VNode 0 vs) ->
+      let r := flex_run ops bs in
+      blen (fst r) = blen bs /\ validate t a (fst r) = Ok tt /\
+      exists vs', view t (fst r) = Ok (VNode 0 vs') /\
+        map strip vs' = flex_spec_run ops (snd r) (map strip vs) /\
+        flex_spec_outs ops (snd r) (map strip vs).
+    Proof.
+      intros bs vs Hops. apply (flex_op_history_g (fun _ => True)); auto.
+      apply Forall_forall. intros op Hin. rewrite Forall_forall in Hops. split; [apply Hops; exact Hin|].
+      destruct op; exact I.
+    Qed.
+  End PushPlain.
 
   (* ---------- 5. editing one item in place ---------- *)
 
@@ -1240,6 +1294,64 @@ Section FlexOps.
     Qed.
   End Edit.
 
+  (* the same when the item-level operation keeps the payload valid only for the outcomes in [good]
+     (e.g. a successful assignment): the slice always keeps its length and reports the item-level
+     outcome; validity and the new contents are claimed for the good outcomes *)
+  Section EditG.
+    Variables (f : N -> bytes -> bytes * oout) (op : fop) (j : N) (good : oout -> Prop).
+    Hypothesis Hop : forall bs its fin, flex_chain l os al (flex_data et l bs) = Ok (its, fin) ->
+      flex_op pv t a op bs =
+      match nth_error its (N.to_nat j) with
+      | Some (pos, plen) =>
+          let r := f (a + pos + os) (take plen (drop (pos + os) (flex_data et l bs))) in
+          ((take (pos + os) (flex_data et l bs) ++ fst r ++ drop (pos + os + plen) (flex_data et l bs))
+             ++ drop (floor_mul (blen bs) al) bs, snd r)
+      | None => (bs, OPanic)
+      end.
+    Hypothesis Hf : forall pa pl, validate et pa pl = Ok tt ->
+      blen (fst (f pa pl)) = blen pl /\ (good (snd (f pa pl)) -> validate et pa (fst (f pa pl)) = Ok tt).
+
+    Theorem flex_edit_ok_g bs vs : validate t a bs = Ok tt -> view t bs = Ok (VNode 0 vs) ->
+      let r := flex_op pv t a op bs in
+      (nth_error vs (N.to_nat j) = None -> r = (bs, OPanic)) /\
+      (forall v, nth_error vs (N.to_nat j) = Some v ->
+         exists pa pl, validate et pa pl = Ok tt /\ view et pl = Ok v /\
+           snd r = snd (f pa pl) /\ blen (fst r) = blen bs /\
+           (good (snd (f pa pl)) ->
+            exists v', view et (fst (f pa pl)) = Ok v' /\ validate t a (fst r) = Ok tt /\
+              view t (fst r) = Ok (VNode 0 (splice (N.to_nat j) v' vs)))).
+    Proof.
+      intros Hv Hview r. destruct (valid_unpack bs Hv) as (items & e & vs0 & Hst).
+      destruct (fstate_facts _ _ _ _ Hst) as (_ & Hview0 & _ & Hfc). rewrite Hview in Hview0. injection Hview0 as <-.
+      pose proof Hst as (_ & _ & Hvs & Hc). pose proof (Forall2_len _ _ _ Hvs) as Hlen.
+      pose proof Hw as Hw0. apply wf_flex_inv in Hw0. destruct Hw0 as [Hwt _].
+      unfold r. rewrite (Hop bs _ _ Hfc). split.
+      - intros Hnone. apply nth_error_None in Hnone.
+        assert (Hn2 : nth_error (map item_pl items) (N.to_nat j) = None)
+          by (apply nth_error_None; rewrite map_length; lia).
+        rewrite Hn2. reflexivity.
+      - intros v Hsome.
+        destruct (nth_error items (N.to_nat j)) as [[[p pa] pl]|] eqn:Hnth.
+        2:{ apply nth_error_None in Hnth. assert (Hs : nth_error vs (N.to_nat j) <> None) by congruence.
+            apply nth_error_Some in Hs. lia. }
+        rewrite (map_nth_error item_pl _ _ Hnth). unfold item_pl. cbn [item_pos fst snd]. cbv zeta.
+        destruct (edit_state _ bs items e vs p pa pl Hst Hnth) as (Hpa & Hroom & Hpl & (v1 & Hv1 & Hviewpl) & Hvpl & Hnew).
+        rewrite Hsome in Hv1. injection Hv1 as <-.
+        rewrite <- Hpl, <- Hpa.
+        destruct (Hf pa pl Hvpl) as (Hfl & Hfv).
+        exists pa, pl. cbn [fst snd]. split; [exact Hvpl|]. split; [exact Hviewpl|]. split; [reflexivity|]. split.
+        + set (d' := take (p + os) (flex_data et l bs) ++ fst (f pa pl) ++ drop (p + os + blen pl) (flex_data et l bs)).
+          assert (Hd' : blen d' = blen (flex_data et l bs)).
+          { unfold d'. rewrite !blen_app, blen_take_le, blen_drop, Hfl by lia. lia. }
+          exact (proj1 (back_facts bs d' Hc Hd')).
+        + intros Hg. specialize (Hfv Hg).
+          destruct (valid_size_view et pa _ Hwt Hfv) as (k' & v' & _ & _ & _ & _ & Hview' & _).
+          destruct (Hnew _ v' Hfl Hfv Hview') as (Hbb & Hst').
+          destruct (fstate_facts _ _ _ _ Hst') as (Hv2 & Hview2 & _).
+          exists v'. auto.
+    Qed.
+  End EditG.
+
   (* iter_mut().nth(j) then a FlatVec / FlatString operation on the item *)
   Theorem flex_edit_vec_ok j vo bs vs :
     (forall pa pl, validate et pa pl = Ok tt ->
@@ -1281,6 +1393,50 @@ Section FlexOps.
              (FEditAssign j x) j); [|exact Hf].
     intros bs0 its fin H. unfold flex_data in *. unfold flex_op. cbv zeta. rewrite H.
     destruct (nth_error its (N.to_nat j)) as [[pos plen]|]; reflexivity.
+  Qed.
+
+  (* iter_mut().nth(j) then assign_in_place on the item, the premise only for the assignment that
+     succeeds: a failed assignment still keeps the slice length and is reported *)
+  Theorem flex_edit_assign_done j x bs vs :
+    (forall pa pl, validate et pa pl = Ok tt ->
+       blen (fst (assign_in_place pv et x pa pl)) = blen pl /\
+       (snd (assign_in_place pv et x pa pl) = Ok tt ->
+        validate et pa (fst (assign_in_place pv et x pa pl)) = Ok tt)) ->
+    validate t a bs = Ok tt -> view t bs = Ok (VNode 0 vs) ->
+    let r := flex_op pv t a (FEditAssign j x) bs in
+    (nth_error vs (N.to_nat j) = None -> r = (bs, OPanic)) /\
+    (forall v, nth_error vs (N.to_nat j) = Some v ->
+       exists pa pl, validate et pa pl = Ok tt /\ view et pl = Ok v /\
+         snd r = assign_out (assign_in_place pv et x pa pl) /\ blen (fst r) = blen bs /\
+         (snd (assign_in_place pv et x pa pl) = Ok tt ->
+          exists v', view et (fst (assign_in_place pv et x pa pl)) = Ok v' /\
+            validate t a (fst r) = Ok tt /\
+            view t (fst r) = Ok (VNode 0 (splice (N.to_nat j) v' vs)))).
+  Proof.
+    intros Hf Hv Hview r.
+    assert (Hout : forall rr : eres, assign_out rr = ODone <-> snd rr = Ok tt).
+    { intros [b [[]|k p|c]]; unfold assign_out; cbn [snd]; split; intros H; try reflexivity; discriminate. }
+    set (f := fun pa pl => (fst (assign_in_place pv et x pa pl), assign_out (assign_in_place pv et x pa pl))).
+    assert (Hop' : forall bs0 its fin, flex_chain l os al (flex_data et l bs0) = Ok (its, fin) ->
+      flex_op pv t a (FEditAssign j x) bs0 =
+      match nth_error its (N.to_nat j) with
+      | Some (pos, plen) =>
+          let r := f (a + pos + os) (take plen (drop (pos + os) (flex_data et l bs0))) in
+          ((take (pos + os) (flex_data et l bs0) ++ fst r ++ drop (pos + os + plen) (flex_data et l bs0))
+             ++ drop (floor_mul (blen bs0) al) bs0, snd r)
+      | None => (bs0, OPanic)
+      end).
+    { intros bs0 its fin H. unfold flex_data in *. unfold flex_op. cbv zeta. rewrite H.
+      destruct (nth_error its (N.to_nat j)) as [[pos plen]|]; reflexivity. }
+    assert (Hf' : forall pa pl, validate et pa pl = Ok tt ->
+      blen (fst (f pa pl)) = blen pl /\ (snd (f pa pl) = ODone -> validate et pa (fst (f pa pl)) = Ok tt)).
+    { intros pa pl Hvp. unfold f. cbn [fst snd]. destruct (Hf pa pl Hvp) as [A B].
+      split; [exact A|]. intros Hg. apply B. apply Hout. exact Hg. }
+    destruct (flex_edit_ok_g f (FEditAssign j x) j (fun o => o = ODone) Hop' Hf' bs vs Hv Hview) as [H1 H2].
+    split; [exact H1|]. intros v Hs. destruct (H2 v Hs) as (pa & pl & A & B & C & D & E).
+    exists pa, pl. unfold f in C, E. cbn [fst snd] in C, E.
+    split; [exact A|]. split; [exact B|]. split; [exact C|]. split; [exact D|].
+    intros Hok. apply E. apply Hout. exact Hok.
   Qed.
 
   (* ---------- C13: two valid images that agree on their first size() bytes ---------- *)
@@ -1510,6 +1666,81 @@ Section PushRejected.
   Variables (pv : option N) (et : ty) (l : intty) (a : N).
   Hypothesis Hw : wf (TFlex et l) = true.
   Hypothesis Hnar : narrow l = true.
+  Variable okinit : init -> Prop.
+  Hypothesis Hitem : forall i pa payload payload', okinit i -> init_ok et i = true ->
+    emplace pv et i pa payload = (payload', Ok tt) ->
+    blen payload' = blen payload /\ validate et pa payload' = Ok tt /\
+    (exists v, view et payload' = Ok v /\ spec_value et i = Some (strip v)).
+  Hypothesis Hitem_len : forall i pa payload, okinit i -> init_ok et i = true ->
+    is_crash (snd (emplace pv et i pa payload)) = false ->
+    blen (fst (emplace pv et i pa payload)) = blen payload.
+  Hypothesis Hitem_nocrash : forall i pa payload, okinit i -> init_ok et i = true ->
+    is_crash (snd (emplace pv et i pa payload)) = false.
+  Local Notation t := (TFlex et l).
+
+  (* a push that reports an error leaves validity, contents, len(), size(), the length of the slice
+     and the first size() bytes as they were *)
+  Theorem flex_push_rejected_g i bs vs k kd : okinit i -> init_ok et i = true ->
+    validate t a bs = Ok tt -> view t bs = Ok (VNode 0 vs) -> size_m t bs = Ok k ->
+    snd (flex_op pv t a (FPush i) bs) = OErr kd ->
+    let bs' := fst (flex_op pv t a (FPush i) bs) in
+    blen bs' = blen bs /\ validate t a bs' = Ok tt /\ size_m t bs' = Ok k /\ take k bs' = take k bs /\
+    exists vs', view t bs' = Ok (VNode 0 vs') /\ map strip vs' = map strip vs /\ length vs' = length vs.
+  Proof.
+    intros Hoki Hi Hv Hview Hk Ho bs'.
+    destruct (flex_push_ok_g pv et l a Hw Hnar okinit Hitem Hitem_len Hitem_nocrash i bs vs k Hoki Hi Hv Hview Hk)
+      as (Hb & Hv' & [(Ho' & _)|(kd' & _ & _ & Htk & Hk' & vs' & Hview' & Hstrip)]).
+    - rewrite Ho in Ho'. discriminate.
+    - fold bs' in Hb, Hv', Htk, Hk', Hview'. repeat split; auto. exists vs'. repeat split; auto.
+      rewrite <- (map_length strip vs'), Hstrip. apply map_length.
+  Qed.
+
+  (* a push reports completion or an error, nothing else *)
+  Theorem flex_push_outcomes_g i bs : okinit i -> init_ok et i = true -> validate t a bs = Ok tt ->
+    snd (flex_op pv t a (FPush i) bs) = ODone \/ exists kd, snd (flex_op pv t a (FPush i) bs) = OErr kd.
+  Proof.
+    intros Hoki Hi Hv. destruct (valid_size_view t a bs Hw Hv) as (k & v0 & Hk & _).
+    destruct (valid_unpack et l a Hw bs Hv) as (items & e & vs & Hst).
+    destruct (fstate_facts et l a Hw Hnar _ _ _ _ Hst) as (_ & Hview & _).
+    destruct (flex_push_ok_g pv et l a Hw Hnar okinit Hitem Hitem_len Hitem_nocrash i bs vs k Hoki Hi Hv Hview Hk)
+      as (_ & _ & [(Ho' & _)|(kd' & Ho' & _)]); eauto.
+  Qed.
+
+  (* after a push that reported an error every later history of pop / truncate / clear reports what
+     it would have reported had the push not been attempted, and ends in a state with the same
+     validity, size() and contents *)
+  Theorem flex_push_rejected_then_same_g i bs kd ops : okinit i -> init_ok et i = true ->
+    validate t a bs = Ok tt -> snd (flex_op pv t a (FPush i) bs) = OErr kd ->
+    Forall shrink_op ops ->
+    let bs' := fst (flex_op pv t a (FPush i) bs) in
+    let r := flex_run pv et l a ops bs in
+    let r' := flex_run pv et l a ops bs' in
+    snd r' = snd r /\ blen (fst r') = blen (fst r) /\
+    validate t a (fst r) = Ok tt /\ validate t a (fst r') = Ok tt /\
+    size_m t (fst r') = size_m t (fst r) /\
+    exists vs1 vs2, view t (fst r) = Ok (VNode 0 vs1) /\ view t (fst r') = Ok (VNode 0 vs2) /\
+      map strip vs2 = map strip vs1.
+  Proof.
+    intros Hoki Hi Hv Ho Hops bs' r r'.
+    destruct (valid_size_view t a bs Hw Hv) as (k & v0 & Hk & _).
+    destruct (valid_unpack et l a Hw bs Hv) as (items & e & vs & Hst).
+    destruct (fstate_facts et l a Hw Hnar _ _ _ _ Hst) as (_ & Hview & _).
+    destruct (flex_push_rejected_g i bs vs k kd Hoki Hi Hv Hview Hk Ho) as (Hb & _ & _ & Htk & _). fold bs' in Hb, Htk.
+    assert (Hrel : frel et l a k bs bs') by (repeat split; auto).
+    destruct (flex_then_same pv et l a Hw Hnar ops k bs bs' Hops Hrel) as (Hos & k' & Hrel').
+    fold r in Hos, Hrel'. fold r' in Hos, Hrel'.
+    destruct (frel_valid et l a Hw Hnar _ _ _ Hrel') as (Hv2 & Hk2 & _ & _ & Hviews).
+    destruct Hrel' as (Hv1 & Hk1 & Hb' & _).
+    split; [exact Hos|]. split; [exact Hb'|]. split; [exact Hv1|]. split; [exact Hv2|].
+    split; [rewrite Hk1, Hk2; reflexivity|exact Hviews].
+  Qed.
+End PushRejected.
+
+(* the same with the premises available for every well-typed expression *)
+Section PushRejectedPlain.
+  Variables (pv : option N) (et : ty) (l : intty) (a : N).
+  Hypothesis Hw : wf (TFlex et l) = true.
+  Hypothesis Hnar : narrow l = true.
   Hypothesis Hitem : forall i pa payload payload', init_ok et i = true ->
     emplace pv et i pa payload = (payload', Ok tt) ->
     blen payload' = blen payload /\ validate et pa payload' = Ok tt /\
@@ -1521,8 +1752,6 @@ Section PushRejected.
     is_crash (snd (emplace pv et i pa payload)) = false.
   Local Notation t := (TFlex et l).
 
-  (* a push that reports an error leaves validity, contents, len(), size(), the length of the slice
-     and the first size() bytes as they were *)
   Theorem flex_push_rejected i bs vs k kd : init_ok et i = true ->
     validate t a bs = Ok tt -> view t bs = Ok (VNode 0 vs) -> size_m t bs = Ok k ->
     snd (flex_op pv t a (FPush i) bs) = OErr kd ->
@@ -1530,28 +1759,15 @@ Section PushRejected.
     blen bs' = blen bs /\ validate t a bs' = Ok tt /\ size_m t bs' = Ok k /\ take k bs' = take k bs /\
     exists vs', view t bs' = Ok (VNode 0 vs') /\ map strip vs' = map strip vs /\ length vs' = length vs.
   Proof.
-    intros Hi Hv Hview Hk Ho bs'.
-    destruct (flex_push_ok pv et l a Hw Hnar Hitem Hitem_len Hitem_nocrash i bs vs k Hi Hv Hview Hk)
-      as (Hb & Hv' & [(Ho' & _)|(kd' & _ & _ & Htk & Hk' & vs' & Hview' & Hstrip)]).
-    - rewrite Ho in Ho'. discriminate.
-    - fold bs' in Hb, Hv', Htk, Hk', Hview'. repeat split; auto. exists vs'. repeat split; auto.
-      rewrite <- (map_length strip vs'), Hstrip. apply map_length.
+    intros Hi. apply (flex_push_rejected_g pv et l a Hw Hnar (fun _ => True)); auto.
   Qed.
 
-  (* a push reports completion or an error, nothing else *)
   Theorem flex_push_outcomes i bs : init_ok et i = true -> validate t a bs = Ok tt ->
     snd (flex_op pv t a (FPush i) bs) = ODone \/ exists kd, snd (flex_op pv t a (FPush i) bs) = OErr kd.
   Proof.
-    intros Hi Hv. destruct (valid_size_view t a bs Hw Hv) as (k & v0 & Hk & _).
-    destruct (valid_unpack et l a Hw bs Hv) as (items & e & vs & Hst).
-    destruct (fstate_facts et l a Hw Hnar _ _ _ _ Hst) as (_ & Hview & _).
-    destruct (flex_push_ok pv et l a Hw Hnar Hitem Hitem_len Hitem_nocrash i bs vs k Hi Hv Hview Hk)
-      as (_ & _ & [(Ho' & _)|(kd' & Ho' & _)]); eauto.
+    intros Hi. apply (flex_push_outcomes_g pv et l a Hw Hnar (fun _ => True)); auto.
   Qed.
 
-  (* after a push that reported an error every later history of pop / truncate / clear reports what
-     it would have reported had the push not been attempted, and ends in a state with the same
-     validity, size() and contents *)
   Theorem flex_push_rejected_then_same i bs kd ops : init_ok et i = true ->
     validate t a bs = Ok tt -> snd (flex_op pv t a (FPush i) bs) = OErr kd ->
     Forall shrink_op ops ->
@@ -1564,17 +1780,6 @@ Section PushRejected.
     exists vs1 vs2, view t (fst r) = Ok (VNode 0 vs1) /\ view t (fst r') = Ok (VNode 0 vs2) /\
       map strip vs2 = map strip vs1.
   Proof.
-    intros Hi Hv Ho Hops bs' r r'.
-    destruct (valid_size_view t a bs Hw Hv) as (k & v0 & Hk & _).
-    destruct (valid_unpack et l a Hw bs Hv) as (items & e & vs & Hst).
-    destruct (fstate_facts et l a Hw Hnar _ _ _ _ Hst) as (_ & Hview & _).
-    destruct (flex_push_rejected i bs vs k kd Hi Hv Hview Hk Ho) as (Hb & _ & _ & Htk & _). fold bs' in Hb, Htk.
-    assert (Hrel : frel et l a k bs bs') by (repeat split; auto).
-    destruct (flex_then_same pv et l a Hw Hnar ops k bs bs' Hops Hrel) as (Hos & k' & Hrel').
-    fold r in Hos, Hrel'. fold r' in Hos, Hrel'.
-    destruct (frel_valid et l a Hw Hnar _ _ _ Hrel') as (Hv2 & Hk2 & _ & _ & Hviews).
-    destruct Hrel' as (Hv1 & Hk1 & Hb' & _).
-    split; [exact Hos|]. split; [exact Hb'|]. split; [exact Hv1|]. split; [exact Hv2|].
-    split; [rewrite Hk1, Hk2; reflexivity|exact Hviews].
+    intros Hi. apply (flex_push_rejected_then_same_g pv et l a Hw Hnar (fun _ => True)); auto.
   Qed.
-End PushRejected.
+End PushRejectedPlain.
